@@ -15,7 +15,6 @@ import (
 	"github.com/ory/keto/internal/check"
 	"github.com/ory/keto/internal/driver/config"
 	"github.com/ory/keto/internal/expand"
-	"github.com/ory/keto/internal/namespace"
 	"github.com/ory/keto/internal/relationtuple"
 	"github.com/ory/keto/ketoapi"
 )
@@ -239,6 +238,7 @@ func streamConc(t *testing.T, o *Out, race bool) {
 	r := newRand()
 	n := envInt("VERIF_N", 20)
 	var env *apiEnv
+	var envTB *roundTB
 	var tenantA, tenantB, tenantC, tenantD *apiEnv
 	var tenantRelease func()
 	tenantUses := 0
@@ -246,19 +246,23 @@ func streamConc(t *testing.T, o *Out, race bool) {
 		if tenantRelease != nil {
 			tenantRelease()
 		}
+		if envTB != nil {
+			envTB.runCleanups()
+		}
 	}()
 	for i := 0; i < n; i++ {
 		if env == nil || race || i%5 == 0 {
-			if env != nil {
-				// release the old environment's file watcher (inotify instances are scarce). Setting a
-				// configuration value is not a request: it must not run next to goroutines that earlier
-				// requests left behind (they read the configuration without the provider's lock), so wait
-				// until those are gone - the property is about requests, not about the harness's own
-				// reconfiguration
+			if envTB != nil {
+				// release the old environment (its file watcher: inotify instances are scarce) by running
+				// the clean-ups it registered - cancelling the registry's context. NOT by setting a
+				// configuration value: that is not a request, and it races with the goroutines earlier
+				// requests left behind (they read the configuration without the provider's lock; the
+				// race detector reported exactly that, a false alarm of the harness's making)
 				quiesce()
-				_ = env.reg.Config(env.ctx).Set(config.KeyNamespaces, []*namespace.Namespace{})
+				envTB.runCleanups()
 			}
-			env = newAPIEnv(t, hcheckOPL)
+			envTB = &roundTB{TB: t}
+			env = newAPIEnv(envTB, hcheckOPL)
 		}
 		if err := env.seedState(r); err != nil {
 			t.Fatal(err)
@@ -431,4 +435,21 @@ func quiesce() {
 			last, stable = n, 0
 		}
 	}
+}
+
+
+// roundTB is a testing.TB whose clean-ups can be run before the test ends (an environment per
+// round: registry context, database, temporary directory).
+type roundTB struct {
+	testing.TB
+	cleanups []func()
+}
+
+func (r *roundTB) Cleanup(f func()) { r.cleanups = append(r.cleanups, f) }
+
+func (r *roundTB) runCleanups() {
+	for i := len(r.cleanups) - 1; i >= 0; i-- {
+		r.cleanups[i]()
+	}
+	r.cleanups = nil
 }
